@@ -251,8 +251,7 @@ func c18(env *core.Env) {
 			if opErr == nil {
 				_, opErr = w.Commit(dig)
 			}
-			w.Close()
-			w.Cancel()
+			c18afterwards(c, w, dig)
 		}
 	case "PushBlobChunkedResume(-1)+Write+Close":
 		w, err := client.PushBlobChunkedResume(ctx, repo, "http://sim.example/v2/foo/blobs/uploads/dXBsb2Fk", -1, []int{0, 1, 3}[c.Int("chunk", 3)])
@@ -262,7 +261,7 @@ func c18(env *core.Env) {
 			if cerr := w.Close(); opErr == nil {
 				opErr = cerr
 			}
-			w.ID()
+			c18afterwards(c, w, dig)
 		}
 	case "PushBlobChunkedResume(n)+Write+Commit":
 		w, err := client.PushBlobChunkedResume(ctx, repo, []string{"http://sim.example/v2/foo/blobs/uploads/dXBsb2Fk", "/v2/foo/blobs/uploads/x", "relative", "", "::"}[c.Int("resume.id", 5)], int64(c.Range("resume.off", 0, 9)), 2)
@@ -272,6 +271,7 @@ func c18(env *core.Env) {
 			if opErr == nil {
 				_, opErr = w.Commit(dig)
 			}
+			c18afterwards(c, w, dig)
 		}
 	case "MountBlob":
 		_, opErr = client.MountBlob(ctx, "other", repo, dig)
@@ -351,4 +351,28 @@ func readAllBounded(br ociregistry.BlobReader) ([]byte, error) {
 		}
 	}
 	return buf.Bytes(), fmt.Errorf("reader did not end within 8 MiB")
+}
+
+// c18afterwards: whatever a writer has been through - a refused chunk, a commit
+// answered oddly - every one of its methods still returns when called again.
+func c18afterwards(c *core.Choices, w ociregistry.BlobWriter, dig ociregistry.Digest) {
+	for i, n := 0, c.Range("afterwards", 1, 4); i < n; i++ {
+		switch c.Int("afterwards.what", 6) {
+		case 0:
+			w.ID()
+		case 1:
+			w.Size()
+			w.ChunkSize()
+		case 2:
+			w.Write([]byte("x"))
+		case 3:
+			w.Commit(dig)
+		case 4:
+			w.Close()
+		case 5:
+			w.Cancel()
+		}
+	}
+	w.ID()
+	w.Close()
 }
